@@ -69,12 +69,12 @@ struct Tally {
     {
         for (int s = 0; s < NSC; s++)
             if (n[s] > 0) {
-                obs.check(SC_NAME[s], (double)bad[s], cls + "/" + (key[s] ? key[s] : "-"));
+                obs.check(SC_NAME[s], (double)bad[s], bad[s] ? cls + "/" + (key[s] ? key[s] : "-") : std::string());
                 obs.counts[SC_NAME[s]] += n[s] - 1;
             }
         for (int s = 0; s < NNC; s++)
             if (nn[s] > 0) {
-                obs.check(NC_NAME[s], worst[s], cls + "/" + (nkey[s] ? nkey[s] : "-"));
+                obs.check(NC_NAME[s], worst[s], (worst[s] != 0.0) ? cls + "/" + (nkey[s] ? nkey[s] : "-") : std::string());
                 obs.counts[NC_NAME[s]] += nn[s] - 1;
             }
     }
@@ -380,9 +380,9 @@ static void run_case(CaseCtx& c)
 {
     Rng& rng          = c.rng;
     const bool big    = c.thorough();
-    const int nr_max  = big ? 72 : 40;
-    const int nth_max = big ? 200 : 96;
-    const int cap     = big ? 12000 : 6000;
+    const int nr_max  = big ? 192 : 40;
+    const int nth_max = big ? 768 : 96;
+    const int cap     = big ? 80000 : 6000;
 
     // ------------------------------------------------------------------------------------------------ generate
     Source src;
@@ -404,12 +404,12 @@ static void run_case(CaseCtx& c)
         else if (u < 0.22)
             nr = rng.range(6, 8);
         else if (u < 0.50)
-            nr = (1 << rng.range(1, big ? 6 : 5)) + 1; // 3, 5, 9, 17, 33, (65): coarsenable to the end
+            nr = (1 << rng.range(1, big ? 7 : 5)) + 1; // 3, 5, 9, 17, 33, (65, 129): coarsenable to the end
         else
             nr = rng.range(6, nr_max);
         double v = rng.u01();
         if (v < 0.40)
-            nth = 1 << rng.range(1, big ? 8 : 7);
+            nth = 1 << rng.range(1, big ? 10 : 7);
         else if (v < 0.70)
             nth = 4 * rng.range(1, nth_max / 4);
         else
@@ -464,8 +464,8 @@ static void run_case(CaseCtx& c)
     else {
         src.R0         = R0;
         src.Rmax       = Rmax;
-        src.nr_exp     = rng.range(1, big ? 5 : 4);
-        src.ntheta_exp = rng.coin(0.3) ? -1 : rng.range(0, big ? 7 : 6);
+        src.nr_exp     = rng.range(1, big ? 6 : 4);
+        src.ntheta_exp = rng.coin(0.3) ? -1 : rng.range(0, big ? 8 : 6);
         src.divideBy2  = rng.range(0, 2);
         if (src.ntheta_exp == 0 && src.divideBy2 == 0)
             src.divideBy2 = 1;
